@@ -25,7 +25,7 @@ SignRaw(grp, c, q, k) ==
     LET K == MulG(k)
         r == XModN(K, grp.n)
         s == (ScInv(k, grp.n) * (c + r * q)) % grp.n
-        id == (IF K.y % 2 = 1 THEN 1 ELSE 0) + (IF K.x >= grp.n THEN 2 ELSE 0)
+        id == (IF K.y % 2 = 1 THEN 1 ELSE 0) + 2 * (K.x \div grp.n)
     IN [ok |-> r # 0 /\ s # 0, r |-> r, s |-> s, id |-> id]
 Sign(grp, c, q, k, lowS) ==
     LET raw == SignRaw(grp, c, q, k) IN
